@@ -1,4 +1,5 @@
 import Comdex.Props.C01
+import Comdex.Lemmas.VaultRatio
 /-!
 # C03 — Vault risk limits: min collateral ratio, debt floor and debt ceiling hold
 
@@ -10,8 +11,12 @@ every oracle price, every asset decimal scale, every prior history incl. accrued
       → `C03.create_accepted_ratio`, `C03.draw_accepted_ratio`, `C03.withdraw_accepted_ratio`,
         `C03.depositAndDraw_accepted_ratio`
    These are stated for the ratio **as the chain computes it** (`calcCR`: three 18-digit fixed-point roundings of
-   `(amountIn·p_in/10^d_in) / (debt·p_out/10^d_out)`): accepted ⇒ `calcCR = some r ∧ r ≥ minCr`. The gap between `r`
-   and the exact rational is at most the three Dec roundings and is NOT bounded by a theorem here (partial).
+   `(amountIn·p_in/10^d_in) / (debt·p_out/10^d_out)`): accepted ⇒ `calcCR = some r ∧ r ≥ minCr`; and then for the
+   EXACT products, with the slack of the three roundings made explicit and nothing else lost:
+      → `C03.ratioOk_exact` (+ `create_accepted_ratio_exact`, `draw_accepted_ratio_exact`):
+        `(minCr − ½u)·(debt·p_out/d_out − (½+u)·u) ≤ amountIn·p_in/d_in + ½u`  with `u = 10⁻¹⁸`, stated multiplied out
+        over the integers (`ExactRatio`). `ratioOk_exact_tight` shows the slack is real: an accepted vault whose exact
+        ratio is below `minCr` (by less than the slack).
    For `draw` and `withdraw` the debt is principal + accrued interest + closing fee, i.e. stronger than the clause.
 * "a vault's principal is never left below the product's debt floor unless the vault is closed"    → `C03.floor_kept`
 * "the principal outstanding across a product never exceeds its debt ceiling"                      → `C03.ceiling_kept`
@@ -30,6 +35,112 @@ theorem verifyCR_ratio (p : Product) (e : Env) (a b : Int) (hesm : e.esm = false
   cases hc : calcCR p e a b with
   | none => simp [hc] at h
   | some r => simp [hc, hesm] at h; exact ⟨r, hc, h⟩
+
+theorem calcCR_some (p : Product) (e : Env) (a b : Int) (r : Dec) (h : calcCR p e a b = some r) :
+    ∃ pin pout, e.priceIn = some pin ∧ debtPrice p e = some pout ∧ 0 < valueOf a pin p.decIn ∧
+      0 < valueOf b pout p.decOut ∧ r = Dec.quo (valueOf a pin p.decIn) (valueOf b pout p.decOut) := by
+  unfold calcCR at h
+  cases hpi : e.priceIn with
+  | none => simp [hpi] at h
+  | some pin =>
+    simp only [hpi] at h
+    have key : ∀ pout, (if valueOf a pin p.decIn ≤ 0 then none else if valueOf b pout p.decOut ≤ 0 then none
+          else some (Dec.quo (valueOf a pin p.decIn) (valueOf b pout p.decOut))) = some r →
+        0 < valueOf a pin p.decIn ∧ 0 < valueOf b pout p.decOut ∧
+          r = Dec.quo (valueOf a pin p.decIn) (valueOf b pout p.decOut) := by
+      intro pout hh
+      by_cases h1 : valueOf a pin p.decIn ≤ 0
+      · simp [h1] at hh
+      · by_cases h2 : valueOf b pout p.decOut ≤ 0
+        · simp [h1, h2] at hh
+        · simp only [h1, h2, if_false, Option.some.injEq] at hh
+          exact ⟨Int.not_le.mp h1, Int.not_le.mp h2, hh.symm⟩
+    by_cases ho : p.outOracle = true
+    · cases hpo : e.priceOut with
+      | none => simp [ho, hpo] at h
+      | some pout =>
+        simp only [ho, hpo, if_true, Option.map_some] at h
+        obtain ⟨k1, k2, k3⟩ := key pout h
+        exact ⟨pin, pout, rfl, by simp [debtPrice, ho, hpo], k1, k2, k3⟩
+    · simp only [ho] at h
+      obtain ⟨k1, k2, k3⟩ := key p.outPrice h
+      exact ⟨pin, p.outPrice, rfl, by simp [debtPrice, ho], k1, k2, k3⟩
+
+/-- accepted by the chain's check ⇒ the exact inequality, for every amount, price, decimal scale and `minCr ≥ ½·10⁻¹⁸` -/
+theorem ratioOk_exact (p : Product) (e : Env) (a b : Int) (hdi : 0 < p.decIn) (hdo : 0 < p.decOut)
+    (hm : (1 : Int) ≤ 2 * (p.minCr : Int)) (h : RatioOk p e a b) :
+    ∃ pin pout, e.priceIn = some pin ∧ debtPrice p e = some pout ∧ ExactRatio p pin pout a b := by
+  obtain ⟨r, hr, hge⟩ := h
+  obtain ⟨pin, pout, hpi, hpo, hvin, hvout, rfl⟩ := calcCR_some p e a b r hr
+  refine ⟨pin, pout, hpi, hpo, ?_⟩
+  have hP := P_pos
+  rw [valueOf_eq _ _ _ (by omega)] at hvin hge
+  rw [valueOf_eq b _ _ (by omega)] at hvout hge
+  have hnin := pos_of_chopRound_tdiv_pos _ _ hdi hvin
+  have hnout := pos_of_chopRound_tdiv_pos _ _ hdo hvout
+  have hup := value_upper _ _ (Int.le_of_lt hnin) hdi
+  have hlo := value_lower _ _ (Int.le_of_lt hnout) hdo
+  unfold ExactRatio
+  generalize Dec.chopRound ((a * (pin : Int) * Dec.P * Dec.P).tdiv p.decIn) = vin at *
+  generalize Dec.chopRound ((b * (pout : Int) * Dec.P * Dec.P).tdiv p.decOut) = vout at *
+  generalize a * (pin : Int) * Dec.P * Dec.P = nin at *
+  generalize b * (pout : Int) * Dec.P * Dec.P = nout at *
+  -- (2m−1)·vout ≤ 2P·vin ; 2·dIn·P·vin ≤ 2·nin + dIn·P ; 2·nout − (P+2)·dOut + 2 ≤ 2·dOut·P·vout
+  have hge' : (p.minCr : Int) ≤ Dec.quo vin vout := hge
+  have hq := quo_ge vin vout p.minCr (Int.le_of_lt hvin) hvout hge'
+  have hm0 : (0 : Int) ≤ 2 * (p.minCr : Int) - 1 := by omega
+  have h1 : (2 * (p.minCr : Int) - 1) * p.decIn * (2 * p.decOut * Dec.P * vout) ≤ 2 * Dec.P * p.decOut * (2 * p.decIn * Dec.P * vin) := by
+    have hpos : (0 : Int) ≤ 2 * p.decOut * Dec.P * p.decIn := by positivity
+    have := Int.mul_le_mul_of_nonneg_left hq hpos
+    linarith [this]
+  have h2 : (2 * (p.minCr : Int) - 1) * p.decIn * (2 * nout - (Dec.P + 2) * p.decOut + 2) ≤
+      (2 * (p.minCr : Int) - 1) * p.decIn * (2 * p.decOut * Dec.P * vout) :=
+    Int.mul_le_mul_of_nonneg_left hlo (Int.mul_nonneg hm0 (Int.le_of_lt hdi))
+  have h3 : 2 * Dec.P * p.decOut * (2 * p.decIn * Dec.P * vin) ≤ 2 * Dec.P * p.decOut * (2 * nin + p.decIn * Dec.P) :=
+    Int.mul_le_mul_of_nonneg_left hup (by positivity)
+  exact Int.le_trans h2 (Int.le_trans h1 h3)
+
+/-- **With real decimal scales** (`10^k`, `k ≤ 18`, i.e. any scale dividing `10^18`) the two value computations are
+exact and only the final division rounds: accepted ⇒ `(2·minCr − 1)·(debt·pOut·dIn) ≤ 2·10^18·(amountIn·pIn·dOut)`, i.e.
+the exact rational ratio `(amountIn·pIn/dIn)/(debt·pOut/dOut)` is at least `minCr − ½·10⁻¹⁸`. -/
+theorem ratioOk_exact_scales (p : Product) (e : Env) (a b : Int) (hdi : 0 < p.decIn) (hdo : 0 < p.decOut)
+    (hsi : p.decIn ∣ Dec.P) (hso : p.decOut ∣ Dec.P) (h : RatioOk p e a b) :
+    ∃ pin pout : Nat, e.priceIn = some pin ∧ debtPrice p e = some pout ∧ 0 < a * (pin : Int) ∧ 0 < b * (pout : Int) ∧
+      ExactRatioScales p pin pout a b := by
+  unfold ExactRatioScales
+  obtain ⟨r, hr, hge⟩ := h
+  obtain ⟨pin, pout, hpi, hpo, hvin, hvout, rfl⟩ := calcCR_some p e a b r hr
+  have hP := P_pos
+  have ein := valueOf_exact a pin p.decIn hdi hsi
+  have eout := valueOf_exact b pout p.decOut hdo hso
+  have hge' : (p.minCr : Int) ≤ Dec.quo (valueOf a pin p.decIn) (valueOf b pout p.decOut) := hge
+  have hq := quo_ge _ _ p.minCr (Int.le_of_lt hvin) hvout hge'
+  generalize valueOf a pin p.decIn = vin at *
+  generalize valueOf b pout p.decOut = vout at *
+  have hvin' : (0 : Int) < vin := hvin
+  have hvout' : (0 : Int) < vout := hvout
+  refine ⟨pin, pout, hpi, hpo, ?_, ?_, ?_⟩
+  · have : 0 < vin * p.decIn := Int.mul_pos hvin' hdi
+    rw [ein] at this
+    by_contra hc
+    have hc' := Int.not_lt.mp hc
+    nlinarith [this, hP, hc']
+  · have : 0 < vout * p.decOut := Int.mul_pos hvout' hdo
+    rw [eout] at this
+    by_contra hc
+    have hc' := Int.not_lt.mp hc
+    nlinarith [this, hP, hc']
+  · -- multiply (2m−1)·vout ≤ 2P·vin by dIn·dOut and substitute the exact values, then cancel P
+    have hpos : (0 : Int) ≤ p.decIn * p.decOut := Int.mul_nonneg (Int.le_of_lt hdi) (Int.le_of_lt hdo)
+    have h1 := Int.mul_le_mul_of_nonneg_left hq hpos
+    have h2 : Dec.P * ((2 * (p.minCr : Int) - 1) * (b * (pout : Int) * p.decIn)) ≤
+        Dec.P * (2 * Dec.P * (a * (pin : Int) * p.decOut)) := by
+      have e1 : p.decIn * p.decOut * ((2 * (p.minCr : Int) - 1) * vout) =
+          (2 * (p.minCr : Int) - 1) * p.decIn * (vout * p.decOut) := by ring
+      have e2 : p.decIn * p.decOut * (2 * Dec.P * vin) = 2 * Dec.P * p.decOut * (vin * p.decIn) := by ring
+      rw [e1, e2, ein, eout] at h1
+      linarith [h1]
+    exact Int.le_of_mul_le_mul_left h2 hP
 
 theorem create_accepted_ratio (s s' : State) (p : Product) (e : Env) (from_ app prod : Nat) (amtIn amtOut : Int)
     (h : create s p e from_ app prod amtIn amtOut = some s') :
@@ -103,6 +214,30 @@ theorem depositAndDraw_accepted_ratio (s s' : State) (p : Product) (e : Env) (fr
   obtain ⟨v, hv, hid, hesm, hr⟩ := draw_accepted_ratio _ _ _ _ _ _ _ _ _ h
   exact ⟨v, hv, hid, hesm, hr⟩
 
+/-- an accepted create: exact inequality between `amountIn·pIn/dIn` and `amountOut·pOut/dOut` -/
+theorem create_accepted_ratio_exact (s s' : State) (p : Product) (e : Env) (from_ app prod : Nat) (amtIn amtOut : Int)
+    (hdi : 0 < p.decIn) (hdo : 0 < p.decOut) (hm : (1 : Int) ≤ 2 * (p.minCr : Int))
+    (h : create s p e from_ app prod amtIn amtOut = some s') :
+    ∃ pin pout, e.priceIn = some pin ∧ debtPrice p e = some pout ∧ ExactRatio p pin pout amtIn amtOut :=
+  ratioOk_exact p e _ _ hdi hdo hm (create_accepted_ratio s s' p e from_ app prod amtIn amtOut h).2
+
+/-- an accepted draw: exact inequality for the vault as stored afterwards, debt = principal + interest + closing fee -/
+theorem draw_accepted_ratio_exact (s s' : State) (p : Product) (e : Env) (from_ app prod vaultId : Nat) (amt : Int)
+    (hdi : 0 < p.decIn) (hdo : 0 < p.decOut) (hm : (1 : Int) ≤ 2 * (p.minCr : Int))
+    (h : draw s p e from_ app prod vaultId amt = some s') :
+    ∃ v ∈ s'.vaults, v.id = vaultId ∧ ∃ pin pout, e.priceIn = some pin ∧ debtPrice p e = some pout ∧
+      ExactRatio p pin pout v.amountIn (v.amountOut + v.interest + v.closingFee) := by
+  obtain ⟨v, hv, hid, _, hr⟩ := draw_accepted_ratio s s' p e from_ app prod vaultId amt h
+  exact ⟨v, hv, hid, ratioOk_exact p e _ _ hdi hdo hm hr⟩
+
+theorem withdraw_accepted_ratio_exact (s s' : State) (p : Product) (e : Env) (from_ app prod vaultId : Nat) (amt : Int)
+    (hdi : 0 < p.decIn) (hdo : 0 < p.decOut) (hm : (1 : Int) ≤ 2 * (p.minCr : Int))
+    (hesm : e.esm = false) (h : withdraw s p e from_ app prod vaultId amt = some s') :
+    ∃ v ∈ s'.vaults, v.id = vaultId ∧ ∃ pin pout, e.priceIn = some pin ∧ debtPrice p e = some pout ∧
+      ExactRatio p pin pout v.amountIn (v.amountOut + v.interest + v.closingFee) := by
+  obtain ⟨v, hv, hid, hr⟩ := withdraw_accepted_ratio s s' p e from_ app prod vaultId amt hesm h
+  exact ⟨v, hv, hid, ratioOk_exact p e _ _ hdi hdo hm hr⟩
+
 /-- **Debt floor**: after every history every open vault's principal is at least its product's debt floor. -/
 theorem floor_kept (cfg : Nat → Option Product) (hc : CfgOk cfg) (h : History) (hu : UsersOk h) :
     ∀ v ∈ (runAll cfg State.init h).vaults, ∀ p, cfg v.product = some p → p.debtFloor ≤ v.amountOut := by
@@ -168,5 +303,15 @@ example : ∃ s', create (runAll demoCfg State.init [(demoEnv, .fund 10 1 500000
 example : calcCR demoProduct demoEnv 3000000 2000000 = some 15000000000000000000 := by decide
 -- exactly at the boundary: 300000·10 / 2000000·1 = 1.5 = minCr is accepted, one unit less collateral is rejected
 example : verifyCR demoProduct demoEnv 300000 2000000 = true ∧ verifyCR demoProduct demoEnv 299999 2000000 = false := by decide
+
+/-- the half-unit slack of `ratioOk_exact_scales` is real: with unit scales and unit prices, collateral `3·10^18 − 1`
+against debt `2·10^18` has exact ratio `1.5 − 5·10⁻¹⁹ < minCr = 1.5`, and the chain accepts it (the quotient lands
+exactly on a half and half-even rounding goes up to `1.500000000000000000`); one unit less is rejected. -/
+def unitProduct : Product := { demoProduct with decIn := 1, decOut := 1 }
+def unitEnv : Env := { priceIn := some 1, priceOut := some 1 }
+theorem ratioOk_exact_tight :
+    verifyCR unitProduct unitEnv (3 * 10^18 - 1) (2 * 10^18) = true ∧
+    2 * ((3 * 10^18 - 1 : Int) * 1 * 1) < 3 * ((2 * 10^18 : Int) * 1 * 1) ∧
+    verifyCR unitProduct unitEnv (3 * 10^18 - 2) (2 * 10^18) = false := by decide
 
 end Comdex.C03
